@@ -62,7 +62,7 @@ class Check:
         self._distinct = set()
         self.kf = json.load(open(os.path.join(VERIF, "known_findings.json")))
         rd = os.path.join(VERIF, "replays")
-        if os.path.isdir(rd):
+        if os.path.isdir(rd) and "--replay" not in sys.argv:
             for f in os.listdir(rd):
                 if f.startswith(pid + "-") and f.endswith(".json"):
                     try: os.remove(os.path.join(rd, f))
